@@ -227,6 +227,10 @@ def _run_case(ctx, repo, case, MODE):
             TZM.get_local_time_zone()
             for fm in ("normal", "reduced", "extended"):
                 TZM.get_local_time_zone_format(fm)
+                # the same mode name as a string built at run time (equal,
+                # but not the interned constant)
+                TZM.get_local_time_zone_format("".join(list(fm)))
+                TZM.get_local_time_zone_format(tz_fmt_mode=fm.upper().lower())
             TZM.get_local_time_zone_format()
             if case.get("carry"):
                 ctx.ev("local_carry")
